@@ -16,6 +16,23 @@ def run(m):
     hit = [l for l in fails if m['expect'] in l]
     return m['id'], bool(hit), len(fails), errs[:2]
 bad = 0
+# seeded changes (multi-file patches from /verif/seeded): applied to /repo one at a time, then reverted
+SEEDS = json.load(open('/verif/selftest/seeds.json'))
+if sel: SEEDS = [m for m in SEEDS if m['id'] in sel]
+for m in SEEDS:
+    patch = f"/verif/seeded/{m['id']}/patch.diff"
+    if subprocess.run(['git','-C','/repo','apply',patch]).returncode != 0:
+        print('MISSED  ', m['id'], '(patch does not apply)'); bad += 1; continue
+    try:
+        wd = f"/verif/work/selftest-{m['id']}"
+        pr = subprocess.run(['/verif/bin/jdvc','vc','-timeout','10','-work',wd] + m['funcs'], capture_output=True, text=True)
+        subprocess.run(['rm','-rf',wd])
+    finally:
+        subprocess.run(['git','-C','/repo','checkout','--','.'])
+    fails = [l for l in pr.stdout.splitlines() if 'FAIL' in l]
+    hit = [l for l in fails if m['expect'] in l]
+    print(('DETECTED ' if hit else 'MISSED   ') + m['id'], f'({len(fails)} failing obligations)')
+    if not hit: bad += 1
 with concurrent.futures.ThreadPoolExecutor(max_workers=4) as ex:
     for mid, ok, nf, errs in ex.map(run, M):
         print(('DETECTED ' if ok else 'MISSED   ') + mid, f'({nf} failing obligations)', errs if errs else '')
